@@ -58,6 +58,8 @@ def _lit(x):
     x = _strip(x)
     if isinstance(x, dict) and x.get("k") == "Int":
         return x.get("v")
+    if isinstance(x, dict) and x.get("k") == "Sizeof" and isinstance(x.get("v"), int):
+        return x.get("v")      # sizeof(T) is a literal of the instantiation
     return None
 
 
@@ -87,6 +89,8 @@ def _lit(x):
     x = _strip(x)
     if isinstance(x, dict) and x.get("k") == "Int":
         return x.get("v")
+    if isinstance(x, dict) and x.get("k") == "Sizeof" and isinstance(x.get("v"), int):
+        return x.get("v")      # sizeof(T) is a literal of the instantiation
     return None
 
 
